@@ -123,8 +123,7 @@ func checkC10(c *Ctx) {
 	maxParts := 3
 	bound := 2
 	if c.Thorough() {
-		maxParts = 4
-		bound = 3
+		bound = 3 // same bodies, one more non-canonical map position; 4-part bodies over the colliding prints below
 	}
 	idOwner := map[uint64]string{} // id -> canonical content key (injectivity over the enumerated set, per worker)
 
@@ -264,6 +263,19 @@ func checkC10(c *Ctx) {
 		}
 	}
 	rec(nil)
+	if c.Thorough() {
+		// 4-part bodies over the parts whose base names collide (the interesting ones for naming)
+		coll := []MPart{alpha[0], alpha[3], alpha[6], alpha[10], alpha[12], alpha[14], alpha[15], alpha[16], alpha[18], alpha[23]}
+		for _, a := range coll {
+			for _, b := range coll {
+				for _, d := range coll {
+					for _, e := range coll {
+						one([]MPart{a, b, d, e}, "")
+					}
+				}
+			}
+		}
+	}
 	// plurals: case sets over {0,1,2}, bodies from a small alphabet, placeholders colliding with the plural variable
 	small := []MPart{alpha[0], alpha[10], alpha[11], alpha[3], alpha[14], alpha[16]}
 	var bodies [][]MPart
